@@ -223,7 +223,7 @@ where
 {
 	let keychain = wallet.keychain(keychain_mask)?;
 	// create an output using the amount in the slate
-	let (_, mut context, mut tx) = selection::build_recipient_output(
+	let (_, mut context, mut tx, output) = selection::build_recipient_output(
 		wallet,
 		keychain_mask,
 		slate,
@@ -241,12 +241,13 @@ where
 	if !is_initiator {
 		// perform partial sig
 		slate.fill_round_2(&keychain, &context.sec_key, &context.sec_nonce)?;
-		// update excess in stored transaction
-		let mut batch = wallet.batch(keychain_mask)?;
+		// record the final excess in the stored transaction
 		tx.kernel_excess = Some(slate.calc_excess(keychain.secp())?);
-		batch.save_tx_log_entry(tx.clone(), &parent_key_id)?;
-		batch.commit()?;
 	}
+
+	// Only record the output and log entry once our part of the exchange succeeded,
+	// so that a slate we end up refusing (e.g. bad partial signature) leaves no trace
+	selection::save_recipient_output(wallet, keychain_mask, parent_key_id, tx, output)?;
 
 	Ok(context)
 }
